@@ -80,6 +80,25 @@ def cmAuthenticate (k : AuthKind) (e : AuthEnv) (claimed : String) (peer : Peer)
     let r := authenticateWith k e claimed peer i
     if r.2 == "ok" then (r.1, false) else ({ key := 0 }, true)
 
+/-- what `keyResolver.ResolveKey(recipient, KeyAgreement)` answers for a participant -/
+inductive KeyRes where
+  | ok | deactivated | notFound | badKey
+  deriving DecidableEq, Repr, Inhabited
+
+/-- `PAL.Encrypt` as far as the NUMBER of header entries goes: every participant must resolve to an EC key agreement
+    key (any failure, deactivation included, aborts); then one ciphertext per participant -/
+def encryptCount : List KeyRes → Nuts.Res Nat
+  | [] => .ok 0
+  | .ok :: rest => (encryptCount rest).bind (fun k => .ok (k + 1))
+  | _ :: _ => .err "unable to resolve keyAgreement key"
+
+/-- `Network.CreateTransaction`, private part: participants require a node DID; the PAL header is what `Encrypt`
+    returns; without participants the transaction is public (0 entries). Result = number of PAL entries. -/
+def createPalCount (nodeDIDSet : Bool) (parts : List KeyRes) : Nuts.Res Nat :=
+  if parts.isEmpty then .ok 0
+  else if !nodeDIDSet then .err "node DID must be configured to create private transactions"
+  else encryptCount parts
+
 /-- `PAL.Encrypt`: the plaintext is the whole participant list; one ciphertext per participant under that
     participant's key agreement key. `cipherFor d` names the ciphertext made for participant `d`. -/
 def encryptPAL (cipherFor : String → Nat) (pal : List String) : List Nat := pal.map cipherFor
